@@ -222,4 +222,10 @@ Example C01_partial_hypotheses_satisfiable :
     List.length own = 4 /\
     accepts 11 cls (schema_enums SX) (AClass (pascal_s "GetPeople")) jX = true /\
     covers 11 cls (AClass (pascal_s "GetPeople")) jX = true.
-Proof. do 3 eexists. vm_compute. repeat split. Qed.
+Proof.
+  do 3 eexists.
+  split; [reflexivity|].
+  split; [vm_compute; reflexivity|].      (* instantiates own, pub' *)
+  split; [vm_compute; reflexivity|].      (* instantiates cls *)
+  vm_compute. repeat split.
+Qed.
